@@ -1,7 +1,7 @@
 """Per-property checks: which scenarios, how many, on which configurations."""
 import time
 
-from . import runner, scen_bus, scen_hostile, scen_rules  # noqa: F401 (scenario registration)
+from . import runner, scen_bus, scen_hostile, scen_rules, scen_deadline, scen_access  # noqa: F401 (scenario registration)
 from .runner import report, run_cases, seed
 
 CHECKS = {}
@@ -14,8 +14,8 @@ def check(pid):
     return deco
 
 
-def mk(kind, n, base, config="default", lane="asan", **params):
-    return [dict(kind=kind, seed=base * 1000003 + i, config=config, lane=lane, params=params) for i in range(n)]
+def mk(kind, count, base, config="default", lane="asan", **params):
+    return [dict(kind=kind, seed=base * 1000003 + i, config=config, lane=lane, params=params) for i in range(count)]
 
 
 def replay(rep):
@@ -159,3 +159,67 @@ def c16(tier):
                   "random rules of 2-6 matchers, ill-formed rules (unknown names, mistyped operands, too many matchers, repeated option key); oracle: independent "
                   "Python matcher (byte-wise / ASCII case folding); refused rules must leave nothing registered; distinct = (matcher set, option) signatures",
                   t0, tier, SIM_ASSUME, extra_cov={"exhaustive": False, "single_matcher_product_exhaustive": True}, min_events={"get_checks": 300, "rule_path_evaluations": 10000})
+
+
+@check("C14")
+def c14(tier):
+    t0 = time.time()
+    s = seed()
+    q = tier == "quick"
+    cases = (mk("deadline-grid", 150 if q else 6000, s, "default", n=40)
+             + mk("deadline-race", 300 if q else 10000, s + 1, "default", rounds=6)
+             + mk("deadline-race", 150 if q else 5000, s + 2, "wide", rounds=6)
+             + mk("deadline-race", 100 if q else 5000, s + 3, "tiny", rounds=6)
+             + mk("deadline-race", 100 if q else 5000, s + 4, "one", rounds=6))
+    res = run_cases(cases)
+    return report("C14", "exploration", res,
+                  "timeout grid (absent, 0, 1e-4, 0.000999, 0.001, 0.0015, ..., 1e30, string, bool, null, negative, object) x {request, element, both, neither}: the "
+                  "value handed to timerfd_settime is compared with floor(t*1e9) by precedence request > element > default; the virtual clock is stepped to "
+                  "deadline-1ns (no answer allowed), to the deadline (answer due), late replies must have no effect; race batches built explicitly: expiry and "
+                  "{owner reply, caller FIN/RST, owner FIN/RST} harvested in ONE epoll batch in both orders (batch sizes 1, 2, 10, 64): exactly one answer, no "
+                  "sanitizer report; distinct = (timeout types, outcome) and (race kind, order) signatures",
+                  t0, tier, SIM_ASSUME, min_events={"race_batches": 200, "timer_expiries": 200, "timers_armed": 1000})
+
+
+@check("C08")
+def c08(tier):
+    t0 = time.time()
+    s = seed()
+    q = tier == "quick"
+    cases = []
+    for i, fb in enumerate([0x00, 0xff, 0xa5, None]):
+        cs = mk("access", 120 if q else 5000, s + i, "default", n_ops=50)
+        for c in cs:
+            c["fill_byte"] = fb if fb is not None else (c["seed"] * 37) % 256
+        cases += cs
+    cases += mk("localadd", 20 if q else 400, s + 9, "localadd")
+    cases += mk("localadd", 5 if q else 50, s + 10, "default")
+    res = run_cases(cases)
+    return report("C08", "exploration", res,
+                  "generated credential files (1-6 users x group subsets of 1..32 groups, admin/readonly, SHA-512/SHA-256/MD5 hashes), elements with generated "
+                  "access declarations, sequences of authenticate (right, wrong, unknown, repeated, as another user) / fetch / get / set / call / passwd on raw, "
+                  "unix and WebSocket peers; reference model with groups decides visibility (replicas, get results) and set/call rights; allocator fill bytes "
+                  "0x00 / 0xff / 0xa5 / seeded and heap pre-conditioning stand in for 'every value of uninitialised memory'; all passwords are unique tokens "
+                  "searched in every output byte and log line; local-only add from loopback v4/v6/mapped/unix vs remote origins; distinct = (authenticated, has "
+                  "groups, transport) and origin signatures",
+                  t0, tier, SIM_ASSUME + ["uninitialised memory is explored through allocator fill bytes and recycled chunks, not symbolically"],
+                  min_events={"leak_scans": 100, "replica_checks": 1000, "req_authenticate": 500})
+
+
+@check("C20")
+def c20(tier):
+    t0 = time.time()
+    s = seed()
+    q = tier == "quick"
+    from . import chk_c20_fs
+    res = list(chk_c20_fs.fs_results(tier))
+    res += run_cases(mk("access", 150 if q else 6000, s + 20, "default", n_ops=60, precondition=False))
+    return report("C20", "fault_enumeration", res,
+                  "(a) file level (authfs harness, real auth_file.c with --wrap'ed file-system calls): for generated credential files (DES/MD5/SHA-256/SHA-512, "
+                  "1-6 users, up to 32 groups, below and above 4 KiB) every password change is re-run with a crash before and after each mutating file-system "
+                  "call, every sampled short-write count and ENOSPC/EIO/EINTR on each call; each resulting on-disk snapshot is loaded by a fresh process "
+                  "running the real loader and must accept exactly the old or exactly the new credential set; (b) daemon level: sequences of authenticate / "
+                  "passwd by plain, admin, read-only and unknown users on all transports against the authorisation matrix, effectiveness judged from other "
+                  "connections; distinct = (user kind, hash, fault kind, crash point class, outcome) signatures",
+                  t0, tier, SIM_ASSUME + ["crash model: the file holds exactly the effects of the calls completed so far, in program order; reordering of unsynced pages and directory-entry durability are not modelled"],
+                  min_events={"passwd_ok": 20})
